@@ -159,3 +159,66 @@ Qed.
 Theorem projected_includes_reserved : forall reserved inputs extra out rc wc,
   calc_projected reserved inputs extra out rc wc = reserved + calc_projected 0 inputs extra out rc wc.
 Proof. intros. rewrite !calc_projected_closed. lia. Qed.
+
+(* ------------------------------------------------------------------------- *)
+(* writing with a compressor (finding D23)                                   *)
+(* ------------------------------------------------------------------------- *)
+(* With a compressor the write phase holds one more copy of the output chunk (the compressed
+   bytes, as large as the chunk for incompressible data) than the wc copies the formula is given.
+   The formula is then no longer an upper bound ... *)
+Theorem compressed_write_refuted :
+  exists rc wc args extra out, 0 <= rc /\ 0 <= wc /\ 0 <= extra /\ 0 <= out /\
+    Forall arg_ok args /\ Forall single_or_stream args /\
+    task_peak rc (wc + 1) args extra out > formula rc wc args extra out.
+Proof.
+  exists 1, 1, [ABlock 40; ABlock 40], 0, 25000.
+  repeat split; try lia; try (repeat constructor; cbn; lia).
+Qed.
+
+(* ... the overrun is at most one output chunk ... *)
+Theorem compressed_write_overrun_bounded : forall rc wc args extra out,
+  0 <= rc -> 0 <= wc -> 0 <= extra -> 0 <= out ->
+  Forall arg_ok args -> Forall single_or_stream args ->
+  task_peak rc (wc + 1) args extra out <= formula rc wc args extra out + out.
+Proof.
+  intros rc wc args extra out Hrc Hwc Hex Hout Hok Hs.
+  pose proof (unfused_peak_bounded rc (wc + 1) args extra out Hrc ltac:(lia) Hex Hout Hok Hs) as H.
+  rewrite formula_closed in *. lia.
+Qed.
+
+(* ... and there is none when the read copies of the inputs already cover one output chunk *)
+Lemma read_args_alive : forall rc args alive,
+  Forall arg_ok args -> Forall single_or_stream args ->
+  snd (read_args rc alive args) <= alive + sumz (map asize args).
+Proof.
+  intros rc args. induction args as [|a rest IH]; intros alive Hok Hs.
+  - cbn. lia.
+  - inversion Hok as [|? ? Ha Hrest]; subst. inversion Hs as [|? ? Sa Srest]; subst.
+    cbn [read_args map sumz].
+    specialize (IH (alive + held a) Hrest Srest).
+    destruct (read_args rc (alive + held a) rest) as [p' alive']. cbn [snd] in *.
+    assert (held a <= asize a).
+    { destruct a as [b | b k | b k]; cbn [arg_ok single_or_stream held asize] in *.
+      - lia.
+      - destruct k as [|[|k]]; [| |lia]; cbn; nia.
+      - destruct k as [|k]; cbn; lia. }
+    lia.
+Qed.
+
+Lemma sumz_map_scale : forall (l : list argkind) k,
+  sumz (map (fun a => asize a * k) l) = sumz (map asize l) * k.
+Proof. induction l as [|a l IH]; intros k; cbn [map sumz]; [lia | rewrite IH; lia]. Qed.
+
+Theorem compressed_write_within_when_inputs_cover : forall rc wc args extra out,
+  0 <= rc -> 0 <= wc -> 0 <= extra -> 0 <= out ->
+  Forall arg_ok args -> Forall single_or_stream args ->
+  out <= sumz (map asize args) * rc ->
+  task_peak rc (wc + 1) args extra out <= formula rc wc args extra out.
+Proof.
+  intros rc wc args extra out Hrc Hwc Hex Hout Hok Hs Hcov.
+  rewrite formula_closed. unfold task_peak.
+  destruct (read_args_bound rc args 0 Hrc Hok Hs) as (I1 & I2 & I3).
+  pose proof (read_args_alive rc args 0 Hok Hs) as I4.
+  destruct (read_args rc 0 args) as [p alive]. cbn [fst snd] in *.
+  rewrite sumz_map_scale in *. nia.
+Qed.
